@@ -1009,57 +1009,99 @@ fn tools() -> Vec<Tool> {
 
 struct GenStats { generated: u64, capped: bool, undefined_consts: u64 }
 
-fn enumerate_cases(thorough: bool) -> (Vec<Case>, GenStats) {
-    let mut cases: Vec<Case> = vec![];
-    let mut seen: BTreeSet<(Tool, String)> = BTreeSet::new();
-    let mut stats = GenStats { generated: 0, capped: false, undefined_consts: 0 };
-    let scale: u64 = std::env::var("VERIF_C18_CAP").ok().and_then(|s| s.parse().ok()).unwrap_or(if thorough { 60_000 } else { 2_500 });
-    let bound_regs = if thorough { 3 } else { 2 };
+#[derive(Clone, Debug)]
+enum Job {
+    Body { tool: Tool, lang: Lang, sk_text: String, len0: Option<usize>, bound: u32 },
+    Consts { tool: Tool, depth: u32, n: usize, bound: u32 },
+}
+
+impl Job {
+    fn tool(&self) -> Tool { match self { Job::Body { tool, .. } | Job::Consts { tool, .. } => *tool } }
+    fn bound(&self) -> u32 { match self { Job::Body { bound, .. } | Job::Consts { bound, .. } => *bound } }
+    fn gen(&self, ch: &mut Chooser) -> Option<Case> {
+        match self {
+            Job::Body { tool, lang, sk_text, len0, .. } => { let sk = parse_sk(sk_text); Some(gen_body_case(ch, *tool, *lang, &sk, sk_text, *len0)) },
+            Job::Consts { tool, depth, n, .. } => gen_const_case(ch, *tool, *depth, *n),
+        }
+    }
+}
+
+fn jobs(thorough: bool) -> Vec<Job> {
+    let mut jobs: Vec<Job> = vec![];
+    let b = if thorough { 3 } else { 2 };
     for tool in tools() {
         let main = sub_lang(tool);
-        let mut jobs: Vec<(Lang, String, Option<usize>, u32)> = vec![];
+        let mut body = |lang: Lang, s: &str, len0: Option<usize>, bound: u32| jobs.push(Job::Body { tool, lang, sk_text: s.to_string(), len0, bound });
         match tool.kind {
             Kind::Anm | Kind::Ecl if main.regs() => {
-                // quick: ECL th07/th08 take every other register skeleton (th06 and ANM th12 take all)
-                let half = !thorough && tool.kind == Kind::Ecl && tool.game != Game::Th06;
-                for (si, s) in SK_REGS.iter().enumerate() { if !half || si % 2 == 0 { jobs.push((main, s.to_string(), None, bound_regs)); } }
-                if thorough { for s in SK_REGS_THOROUGH { jobs.push((main, s.to_string(), None, bound_regs)); } }
-                if main.diff() { for s in SK_DIFF { jobs.push((main, s.to_string(), None, bound_regs)); } }
-                if tool.kind == Kind::Ecl { for s in SK_FLAT { jobs.push((Lang::Timeline, s.to_string(), None, bound_regs)); } }
+                // ECL th07/th08: every other register skeleton is skipped when quick and explored one deviation
+                // shallower when thorough (th06 and ANM th12 take all at the full bound)
+                let lesser = tool.kind == Kind::Ecl && tool.game != Game::Th06;
+                for (si, s) in SK_REGS.iter().enumerate() {
+                    if lesser && si % 2 == 1 { if thorough { body(main, s, None, b - 1); } } else { body(main, s, None, b); }
+                }
+                if thorough { for s in SK_REGS_THOROUGH { body(main, s, None, b - 1); } }
+                if main.diff() { for s in SK_DIFF { body(main, s, None, b); } }
+                if tool.kind == Kind::Ecl { for s in SK_FLAT { body(Lang::Timeline, s, None, b); } }
             },
-            Kind::Anm | Kind::Std => for s in SK_JUMPS { jobs.push((main, s.to_string(), None, bound_regs)); },
-            // full product over the first text's length 0..=9 for the two smallest skeletons (all, when thorough)
+            Kind::Anm | Kind::Std => for s in SK_JUMPS { body(main, s, None, b); },
+            // full product over the first text's length 0..=9 for the two smallest skeletons (three, when thorough)
             Kind::Msg => for (si, s) in SK_FLAT.iter().enumerate() {
-                if si == 0 || si == 2 || thorough { for len0 in 0..10 { jobs.push((main, s.to_string(), Some(len0), bound_regs)); } } else { jobs.push((main, s.to_string(), None, bound_regs)); }
+                if si == 0 || si == 2 || (thorough && si == 3) { for len0 in 0..10 { body(main, s, Some(len0), b); } } else { body(main, s, None, b); }
             },
             _ => {},
         }
-        for (lang, sk_text, len0, bound) in jobs {
-            let sk = parse_sk(&sk_text);
-            let st = explore_dfs(bound, scale, &|ch| gen_body_case(ch, tool, lang, &sk, &sk_text, len0), &mut |_, c| {
-                stats.generated += 1;
-                if seen.insert((c.tool, c.src.clone())) { cases.push(c); }
-            });
-            if st.capped { stats.capped = true; }
-        }
-        // (d) consts
-        // quick: the full const space on one format (ANM th12), a smaller bound on the others (const evaluation is format-independent)
+        // (d) consts.  The full const space on one format (ANM th12), a smaller bound on the others (const evaluation is format-independent)
         let full = matches!((tool.kind, tool.game), (Kind::Anm, Game::Th12));
-        let (cb, cd) = if thorough { (if full { 3 } else { 2 }, 2) } else if full { (2, 2) } else { (1, 2) };
+        let cb: u32 = if thorough { if full { 3 } else { 2 } } else if full { 2 } else { 1 };
         for n in 1..=3usize {
-            let b = if n == 3 && cb > 1 { cb - 1 } else { cb };
-            let st = explore_dfs(b, scale * 8, &|ch| gen_const_case(ch, tool, cd, n), &mut |_, c| {
-                stats.generated += 1;
-                match c { Some(c) => if seen.insert((c.tool, c.src.clone())) { cases.push(c); }, None => stats.undefined_consts += 1 }
-            });
-            if st.capped { stats.capped = true; }
+            let bound = if n == 3 && cb > 1 { cb - 1 } else { cb };
+            jobs.push(Job::Consts { tool, depth: 2, n, bound });
         }
     }
-    // interleave the formats (simplest cases of every format first), so that a wall cap cuts all formats evenly
+    jobs
+}
+
+fn src_hash(tool: Tool, src: &str) -> u64 {
+    use std::hash::{Hash, Hasher};
+    let mut h = std::collections::hash_map::DefaultHasher::new(); // fixed keys: deterministic
+    tool.hash(&mut h); src.hash(&mut h);
+    h.finish()
+}
+
+/// Enumerate all jobs (in parallel); a case is stored as (job index, E-DFS choice sequence) and regenerated by
+/// the worker that checks it.  Distinct source texts only; formats interleaved, simplest first.
+fn enumerate_cases(jobs: &[Job], thorough: bool) -> (Vec<(usize, Vec<u32>)>, GenStats) {
+    let mut stats = GenStats { generated: 0, capped: false, undefined_consts: 0 };
+    let cap: u64 = std::env::var("VERIF_C18_CAP").ok().and_then(|s| s.parse().ok()).unwrap_or(if thorough { 400_000 } else { 40_000 });
+    let per_job = par_map(jobs, None, |_, job| {
+        let mut out: Vec<(Vec<u32>, u64)> = vec![];
+        let mut seen: BTreeSet<u64> = BTreeSet::new();
+        let (mut generated, mut undefined) = (0u64, 0u64);
+        let st = explore_dfs(job.bound(), cap, &|ch| job.gen(ch), &mut |choices, c| {
+            generated += 1;
+            match c { Some(c) => { let h = src_hash(c.tool, &c.src); if seen.insert(h) { out.push((choices.to_vec(), h)); } }, None => undefined += 1 }
+        });
+        (out, generated, undefined, st.capped)
+    });
+    let mut seen: BTreeSet<u64> = BTreeSet::new();
     let mut ord: BTreeMap<Tool, usize> = BTreeMap::new();
-    let mut keyed: Vec<(usize, Case)> = cases.into_iter().map(|c| { let n = ord.entry(c.tool).or_insert(0); *n += 1; (*n, c) }).collect();
-    keyed.sort_by(|a, b| (a.0, a.1.tool).cmp(&(b.0, b.1.tool)));
-    (keyed.into_iter().map(|k| k.1).collect(), stats)
+    let mut keyed: Vec<(usize, Tool, usize, Vec<u32>)> = vec![];
+    for (ji, r) in per_job.into_iter().enumerate() {
+        let (out, generated, undefined, capped) = r.expect("generation has no deadline");
+        stats.generated += generated; stats.undefined_consts += undefined; stats.capped |= capped;
+        let tool = jobs[ji].tool();
+        for (choices, h) in out {
+            if seen.insert(h) { let n = ord.entry(tool).or_insert(0); *n += 1; keyed.push((*n, tool, ji, choices)); }
+        }
+    }
+    keyed.sort_by(|a, b| (a.0, a.1).cmp(&(b.0, b.1)));
+    (keyed.into_iter().map(|k| (k.2, k.3)).collect(), stats)
+}
+
+fn regenerate(jobs: &[Job], item: &(usize, Vec<u32>)) -> Case {
+    let mut ch = Chooser::new(&item.1);
+    jobs[item.0].gen(&mut ch).expect("a stored case regenerates")
 }
 
 // =============================================================================================
@@ -1099,36 +1141,36 @@ pub fn run(tier: &str) -> Report {
     let thorough = rep.is_thorough();
     let deadline = rep.deadline();
     let corrupt = std::env::var("VERIF_C18_SELFTEST_CORRUPT").map_or(false, |v| v == "1");
-    let (cases, stats) = enumerate_cases(thorough);
+    let jobs = jobs(thorough);
+    let (items, stats) = enumerate_cases(&jobs, thorough);
     rep.transitions = stats.generated;
-    rep.states = cases.len() as u64;
+    rep.states = items.len() as u64;
     if stats.capped { rep.cap_hit = Some("generator cap reached for at least one skeleton".into()); }
     if stats.undefined_consts > 0 { rep.discarded.insert("generator:const-set-undefined-by-M6(division by zero)".into(), stats.undefined_consts); }
     if std::env::var("VERIF_C18_DUMP").is_ok() {
-        for c in cases.iter().step_by((cases.len() / 40).max(1)) { println!("---- {} ----\n{}", c.family, c.src); }
+        for it in items.iter().step_by((items.len() / 40).max(1)) { let c = regenerate(&jobs, it); println!("---- {} ----\n{}", c.family, c.src); }
     }
     if std::env::var("VERIF_C18_COUNT").is_ok() {
         let mut m: BTreeMap<String, u64> = BTreeMap::new();
-        for c in &cases { *m.entry(format!("{} {}", c.tool.name(), c.family.split(':').next().unwrap_or(""))).or_insert(0) += 1; }
-        println!("{:#?} total {} gen-time {:?}", m, cases.len(), rep.start.elapsed());
+        for it in &items { let j = &jobs[it.0]; *m.entry(format!("{} {}", j.tool().name(), if matches!(j, Job::Body { .. }) { "body" } else { "consts" })).or_insert(0) += 1; }
+        println!("{:#?} total {} gen-time {:?}", m, items.len(), rep.start.elapsed());
         std::process::exit(0);
     }
-    let results = par_map(&cases, Some(deadline), |_, c| check_case(c, corrupt));
-
-    // driver-vs-CLI conformance on the first 32 cases of every format
-    let mut per_fmt_seen: BTreeMap<String, usize> = BTreeMap::new();
-    let mut cli_jobs: Vec<usize> = vec![];
-    for (i, c) in cases.iter().enumerate() {
-        let n = per_fmt_seen.entry(c.tool.name()).or_insert(0);
-        if *n < 32 && results[i].is_some() { *n += 1; cli_jobs.push(i); }
-    }
-    let cli_results = par_map(&cli_jobs, Some(deadline), |_, &i| cli_conformance(&cases[i], i, results[i].as_ref().unwrap()));
+    // leave time for the report: the checking phase stops 150 s before the tier's wall cap when thorough
+    let check_deadline = if thorough { deadline.checked_sub(std::time::Duration::from_secs(150)).unwrap_or(deadline) } else { deadline };
+    // the first 32 cases of every format also go through the real CLI
+    let mut per_fmt_seen: BTreeMap<Tool, usize> = BTreeMap::new();
+    let cli_set: BTreeSet<usize> = items.iter().enumerate().filter(|(_, it)| { let n = per_fmt_seen.entry(jobs[it.0].tool()).or_insert(0); *n += 1; *n <= 32 }).map(|(i, _)| i).collect();
+    let results = par_map(&items, Some(check_deadline), |i, it| {
+        let c = regenerate(&jobs, it);
+        let r = check_case(&c, corrupt);
+        let cli = if cli_set.contains(&i) { Some(cli_conformance(&c, i, &r)) } else { None };
+        let keep = !r.findings.is_empty() || !r.machinery.is_empty() || r.discard.is_some() || i % 997 == 0 || i < 40;
+        let (tool, srclen) = (c.tool, c.src.len());
+        (CaseResult { dbg: None, bytes: None, ..r }, cli, if keep { Some(c) } else { None }, tool, srclen)
+    });
+    let n_items = items.len();
     let mut cli_ok = 0u64;
-    for r in cli_results.into_iter().flatten() {
-        rep.evaluations += 1;
-        match r { Ok(()) => cli_ok += 1, Err(e) => if rep.machinery_errors.len() < 10 { rep.machinery_errors.push(format!("driver-vs-CLI: {e}")); } }
-    }
-    rep.extra.insert("cli_conformance_cases_identical".into(), json!(cli_ok));
 
     let mut best: BTreeMap<String, (usize, Value)> = BTreeMap::new();
     let mut counts: BTreeMap<String, u64> = BTreeMap::new();
